@@ -246,6 +246,15 @@ func (c *Ctx) Func(rel, name string) *ssa.Function {
 			c.Anchors["renamed: "+name] = f.Name()
 			return f
 		}
+		// a method whose receiver was unused may have become a plain function of the same name (or the reverse is not tried)
+		if recv != "" {
+			if obj, _ := c.LookupObj(rel, fname).(*types.Func); obj != nil {
+				if f := c.Prog.FuncValue(obj); f != nil && !an.KnownFuncs[f.String()] {
+					c.Anchors["receiver dropped: "+name] = f.Name()
+					return f
+				}
+			}
+		}
 		return nil
 	}
 	fn := c.Prog.FuncValue(obj)
